@@ -101,6 +101,15 @@ func x_{{$m.Name}}_{{$k}}{{$m.TypeConstraint}}({{.ArgList}}) ({{.ReturnArgList}}
 	var _ {{.TypeStringVariadicUnderlying}} = {{.Name}}
 {{- end}}
 {{- end}}
+{{- range .Returns}}
+	{{- if .Variadic}}
+	RESULT_IS_MARKED_VARIADIC_{{.Name}}
+	{{- end}}
+	var _ {{.TypeString}} = {{.Name}}
+	var _ {{.TypeStringEllipsis}} = {{.Name}}
+	var _ {{.TypeStringVariadicUnderlying}} = {{.CallName true}}
+	func({{.MethodArg}}) {}({{.CallName false}})
+{{- end}}
 	return {{.ReturnArgNameList}}
 }
 {{end}}
